@@ -65,6 +65,77 @@ def kernelTable : List (String × Secp.IR.Kernel) := [
   ("Scalar_reduce512", Secp.Gen.Scalar_reduce512), ("Scalar_Mul2", Secp.Gen.Scalar_Mul2), ("Scalar_NegateVal", Secp.Gen.Scalar_NegateVal),
   ("Scalar_IsOverHalfOrder", Secp.Gen.Scalar_IsOverHalfOrder)]
 
+/-- value of 26-bit limbs / 32-bit words (least significant first), big-endian bytes -/
+def limbsVal (w : Nat) : List Nat → Nat
+  | [] => 0
+  | x :: xs => x + 2 ^ w * limbsVal w xs
+def bytesValN (b : List Nat) : Nat := b.foldl (fun acc x => acc * 256 + x) 0
+def toLimbs (w : Nat) : Nat → Nat → List Nat
+  | 0, _ => []
+  | n+1, v => v % 2 ^ w :: toLimbs w n (v / 2 ^ w)
+def fieldLimbs (v : Nat) : List Nat := toLimbs 26 10 v
+def scalarWords (v : Nat) : List Nat := toLimbs 32 8 v
+def bytes32Of (v : Nat) : List Nat := (be32 v).map UInt8.toNat
+def showNats (l : List Nat) : String := " ".intercalate (l.map toString)
+def tightLimbs (l : List Nat) : Bool := (l.take 9).all (· < 2 ^ 26) && (l.getD 9 0) < 2 ^ 22
+def magOK (m : Nat) (l : List Nat) : Bool := (l.take 9).all (· ≤ m * (2 ^ 26 + 2 ^ 20)) && l.getD 9 0 ≤ m * 2 ^ 22
+
+/-- specification-level expectation for a kernel run, when the inputs meet the kernel's contract:
+    either the exact expected outputs, or a verdict on the model's outputs (value congruence + bounds).
+    `none` = no specification-level answer for this kernel / these inputs. -/
+def kernSpec (name : String) (ins outs : List Nat) : Option String :=
+  let f := ins.take 10
+  let a := (ins.drop 10).take 10
+  let b := (ins.drop 20).take 10
+  let verdict (ok : Bool) : Option String := some (if ok then showNats outs else "SPEC-VIOLATION")
+  match name with
+  | "Field_Normalize" => some (showNats (fieldLimbs (limbsVal 26 f % P)))
+  | "Field_Mul2" =>
+    if magOK 8 a && magOK 8 b then verdict (magOK 1 outs && limbsVal 26 outs % P == limbsVal 26 a * limbsVal 26 b % P) else none
+  | "Field_SquareVal" =>
+    if magOK 8 a then verdict (magOK 1 outs && limbsVal 26 outs % P == limbsVal 26 a * limbsVal 26 a % P) else none
+  | "Field_NegateVal" =>
+    let m := ins.getD 20 0
+    if m ≤ 63 && magOK m a then verdict (magOK (m + 1) outs && (limbsVal 26 outs + limbsVal 26 a) % P == 0) else none
+  | "Field_Add" => verdict (limbsVal 26 outs == limbsVal 26 f + limbsVal 26 a)
+  | "Field_Add2" => verdict (limbsVal 26 outs == limbsVal 26 a + limbsVal 26 b)
+  | "Field_MulInt" => verdict (limbsVal 26 outs == limbsVal 26 f * ins.getD 10 0)
+  | "Field_SetBytes" =>
+    let v := bytesValN (ins.drop 10)
+    some (showNats (fieldLimbs v ++ [if v ≥ P then 1 else 0]))
+  | "Field_PutBytesUnchecked" => if tightLimbs f then some (showNats (bytes32Of (limbsVal 26 f))) else none
+  | "Field_IsZero" | "Field_IsZeroBit" => if tightLimbs f then some (if limbsVal 26 f == 0 then "1" else "0") else none
+  | "Field_IsOne" | "Field_IsOneBit" => if tightLimbs f then some (if limbsVal 26 f == 1 then "1" else "0") else none
+  | "Field_IsOdd" | "Field_IsOddBit" => if tightLimbs f then some (toString (limbsVal 26 f % 2)) else none
+  | "Field_Equals" => if tightLimbs f && tightLimbs a then some (if limbsVal 26 f == limbsVal 26 a then "1" else "0") else none
+  | "Field_IsGtOrEqPrimeMinusOrder" => if tightLimbs f then some (if limbsVal 26 f ≥ P - N then "1" else "0") else none
+  | "Scalar_overflows" => some (if limbsVal 32 (ins.take 8) ≥ N then "1" else "0")
+  | "Scalar_SetBytes" =>
+    let v := bytesValN (ins.drop 8)
+    some (showNats (scalarWords (v % N) ++ [if v ≥ N then 1 else 0]))
+  | "Scalar_PutBytesUnchecked" => some (showNats (bytes32Of (limbsVal 32 (ins.take 8))))
+  | "Scalar_Add2" =>
+    let x := limbsVal 32 ((ins.drop 8).take 8); let y := limbsVal 32 ((ins.drop 16).take 8)
+    if x < N && y < N then some (showNats (scalarWords ((x + y) % N))) else none
+  | "Scalar_Mul2" =>
+    let x := limbsVal 32 ((ins.drop 8).take 8); let y := limbsVal 32 ((ins.drop 16).take 8)
+    some (showNats (scalarWords (x * y % N)))
+  | "Scalar_NegateVal" =>
+    let x := limbsVal 32 ((ins.drop 8).take 8)
+    if x < N then some (showNats (scalarWords ((N - x) % N))) else none
+  | "Scalar_IsOverHalfOrder" => some (if limbsVal 32 (ins.take 8) > halfN then "1" else "0")
+  | "Scalar_IsZero" | "Scalar_IsZeroBit" => some (if limbsVal 32 (ins.take 8) == 0 then "1" else "0")
+  | "Scalar_IsOdd" => some (toString (limbsVal 32 (ins.take 8) % 2))
+  | "Scalar_Equals" => some (if limbsVal 32 (ins.take 8) == limbsVal 32 ((ins.drop 8).take 8) then "1" else "0")
+  | "Scalar_reduce512" => some (showNats (scalarWords (limbsVal 32 (ins.drop 8) % N)))
+  | "Scalar_reduce385" =>
+    let v := limbsVal 32 (ins.drop 8)
+    if v < 2 ^ 385 then some (showNats (scalarWords (v % N))) else none
+  | "Scalar_reduce256" =>
+    let o := ins.getD 8 0
+    if o ≤ 1 then some (showNats (scalarWords ((limbsVal 32 (ins.take 8) + o * (2 ^ 256 - N)) % 2 ^ 256))) else none
+  | _ => none
+
 def opKern (args : List String) : String :=
   match args with
   | name :: rest =>
@@ -72,7 +143,8 @@ def opKern (args : List String) : String :=
     | none => "no-such-kernel"
     | some k =>
       let ins := rest.map String.toNat!
-      " ".intercalate ((k.runW ins).map toString) ++ "\t="
+      let outs := k.runW ins
+      showNats outs ++ "\t" ++ (kernSpec name ins outs).getD "="
   | _ => "bad-args"
 
 def ioErrName : IoErr → String
